@@ -337,16 +337,39 @@ BUILTINS = [
 ]
 
 
+ELEMENT_VALUES = [0, "", [], False, 0.0, (), "x", 7, {}]
+
+
+def subst(v, val):
+    if v == "a" and isinstance(v, str):
+        return val
+    if isinstance(v, list):
+        return [subst(x, val) for x in v]
+    if isinstance(v, tuple):
+        if len(v) == 3 and v[0] == "obj":
+            return ("obj", v[1], tuple((n, subst(x, val)) for n, x in v[2]))
+        return tuple(subst(x, val) for x in v)
+    return v
+
+
 def builtin_case(ctx):
     rng = ctx.rng
     text, gen, lo = rng.choice(BUILTINS)
     k = rng.randint(lo, 5)
     inp, want = gen(k)
+    kw = {}
+    if rng.random() < 0.5 and "?=" not in text:
+        # the matched elements are whatever the element's action returned - also values
+        # that are falsy (but not None: KF-C13-4)
+        val = rng.choice(ELEMENT_VALUES)
+        kw = {"actions": {"a": lambda _, v, val=val: val}}
+        want = subst(want, val)
+        ctx.count("builtin.element_value:%r" % (val,))
     case = {"grammar": text, "input": inp, "builtin": True, "want": repr(want)}
     ctx.count("builtin.cases")
-    fly = pgx.lr(pgx.grammar(text))
-    deferred = pgx.lr(pgx.grammar(text), build_tree=True)
-    glr = pgx.glr(pgx.grammar(text))
+    fly = pgx.lr(pgx.grammar(text), **kw)
+    deferred = pgx.lr(pgx.grammar(text), build_tree=True, **kw)
+    glr = pgx.glr(pgx.grammar(text), **kw)
     ctx.case((text, inp), True, sample={"grammar": text, "input": inp, "expected": repr(want)})
     k1, v1 = pgx.outcome(fly.parse, inp)
     if k1 != "ret":
@@ -361,7 +384,7 @@ def builtin_case(ctx):
     if r2 != r1:
         ctx.violation("builtin-fly-vs-deferred", case, "%s vs %s" % (r1, r2))
         return
-    during = pgx.lr(pgx.grammar(text), build_tree=True, call_actions_during_tree_build=True)
+    during = pgx.lr(pgx.grammar(text), build_tree=True, call_actions_during_tree_build=True, **kw)
     k5, tree5 = pgx.outcome(during.parse, inp)
     try:
         r5 = norm(during.call_actions(tree5)) if k5 == "ret" else ("outcome", k5)
